@@ -95,7 +95,7 @@ func c03Body(sc *WF) Verdict {
 		cl = append(cl, c)
 	}
 	sortStrings(cl)
-	return ok(nontrivial, cl...)
+	return ok(nontrivial, append(cl, sc.batchClass()...)...)
 }
 
 // c03SpecialOnPath: does some flow have an overwritten connection or a nil target for a
@@ -365,7 +365,7 @@ func TestC03(t *testing.T) {
 		enumC03(3, 8, func(idx int) bool { return idx%211 == r.env.shard }, func(w WF) { i++; evalCase(r, "sample-3nodes", w, checkC03) })
 		r.note("3-node space sampled with stride 211: %d cases in this shard", i)
 	}
-	g := wfGen{MaxLeaves: 12, MaxFlows: 3, Actions: prefixActions, MaxN: 1, MaxVisits: 4, FuelMax: 30, MaxRuns: 3}
+	g := wfGen{MaxLeaves: 12, MaxFlows: 3, Actions: prefixActions, MaxN: 1, MaxVisits: 4, FuelMax: 30, MaxRuns: 3, PBatch: 100}
 	rapidPart(r, "rand-nested", r.pick(4000, 60000), g.gen, checkC03)
 	// Two different nodes living at one address (a struct and its first field, LeafSpec.TwinOf)
 	// and flows that contain themselves are supported by the executor but NOT generated: node
